@@ -37,6 +37,9 @@ type model struct {
 
 var models = map[string]*model{}
 
+// abortGen is raised by a model whose real side keeps hanging: no further case is generated
+var abortGen bool
+
 func register(m *model) { models[m.name] = m }
 
 func nats(b []byte) string {
@@ -187,7 +190,7 @@ func main() {
 			}
 		}
 	}()
-	for i := 0; i < *n; i++ {
+	for i := 0; i < *n && !abortGen; i++ {
 		line, real, class := m.gen(rng)
 		select {
 		case progress <- i:
